@@ -58,6 +58,7 @@ fn sig80(b: &[u8]) -> Result<&[u8; 80], ()> {
 const OPS: &[&str] = &[
     "keygen", "keyrandom", "sk2pk", "gens", "h2s", "m2s", "ms2s", "sign", "verify", "update", "proofgen",
     "proofverify", "proofverifyraw", "commit", "dvc", "blindsign", "blindverify", "blindproofgen", "blindproofverify",
+    "prep",
 ];
 
 fn run<CS: BbsCiphersuite>(op: &str, t: &[&str]) -> Option<Out>
@@ -234,6 +235,31 @@ where
             };
             tr!(s.verify_blind_sign(&pk, hd.as_deref(), ms.as_deref(), cm.as_deref(), bf.as_ref()));
             Out::Ok(vec![])
+        }
+        "prep" => {
+            let ms = opt_list(t[0]);
+            let cm = opt_list(t[1]);
+            let gn = usize_(t[2]);
+            let bn = usize_(t[3]);
+            let bf = match opt_bytes(t[4]) {
+                None => None,
+                Some(b) => {
+                    let a: [u8; 32] = tr!(b.as_slice().try_into());
+                    Some(tr!(BlindFactor::from_bytes(&a)))
+                }
+            };
+            let api = opt_bytes(t[5]);
+            let (sc, g) = tr!(zkryptium::bbsplus::blind::prepare_parameters::<CS>(
+                ms.as_deref(), cm.as_deref(), gn, bn, bf.as_ref(), api.as_deref()));
+            let mut scs = Vec::new();
+            for m in &sc {
+                scs.extend_from_slice(&m.to_bytes_be());
+            }
+            let mut all = Vec::new();
+            for p in &g.values {
+                all.extend_from_slice(&p.to_affine().to_compressed());
+            }
+            Out::Ok(vec![h(scs), h(g.g1_base_point.to_affine().to_compressed()), h(all)])
         }
         "blindproofgen" => {
             let pk = tr!(BBSplusPublicKey::from_bytes(&bytes(t[0])));
